@@ -382,6 +382,10 @@ def run(repo: Repo, tier: str) -> Report:
        f"found {norm_stmt(fin_mean[0].stmt) if fin_mean else None} under {fin_mean[1] if fin_mean else None}",
        fin_mean[0].stmt if fin_mean else "avg = avg / n", fn="mean_grp")
     divguard(rep, repo, kernels, ["mean_grp", "rolling_sum"], flavours=("scalar",))
+    from ..rules import no_early_exit
+    from ..symb import StoreCollector
+    no_early_exit(rep, StoreCollector(mg.node, FILE, loop_atoms_by_name=True, strict=False, keep_arrays=True).run(), FILE, "mean_grp", "group loop and member loop",
+                  allowed={("continue", f"eq0[-1*elem[{pix}] + {gnod}]"), ("continue", f"eq0[elem[{pix}] + -1*{gnod}]")})
     sentinel_discipline(rep, mg, gnod, dm)
     msite = [s for s in load_sites(repo, kernels) if s.kernel == "mean_grp"]
     rep.floor("mean_grp call sites", len(msite), 1)
